@@ -110,7 +110,10 @@ def handleBase (op : String) (f : List String) : Verdict :=
       let sameOrder := match ts with
         | [] => true
         | t :: r => r.all fun u => u.tipNames == t.tipNames
-      let tags := tagIf sameTaxa "sametaxa" ++ tagIf (ts.length ≥ 2) "nontrivial" ++ tagIf (ts.length == 1) "one-tree" ++
+      -- hypothesis of theorem avgGo_is_avg, evaluated (it is a theorem for unique names: matrixGo_is_matrix)
+      let hgo := ts.all fun t => Go.matrixGo mi t == some (matrix m t)
+      let tags := tagIf sameTaxa "sametaxa" ++ tagIf (ts.length ≥ 2 && sameTaxa && res == "ok") "nontrivial" ++
+        tagIf hgo "hyp-avgGo" ++ tagIf (ts.length == 1) "one-tree" ++
         tagIf (ts.length == 0) "no-tree" ++ tagIf (!sameOrder) "tip-order-differs" ++ tagIf (!uniq) "dupnames" ++
         tagIf (ts.any fun t => t.kids.length == 1) "roottip" ++
         tagIf (match ts with | [] => false | t :: r => r.any fun u => u.tipNames.length != t.tipNames.length) "tipcount-differs" ++
@@ -118,6 +121,7 @@ def handleBase (op : String) (f : List String) : Verdict :=
       let resCls := if res.startsWith "panic" then "panic" else res
       if !uniq then
         if go.cls == resCls then ⟨.pass, "tie-only-dupnames" :: tags, ""⟩ else ⟨.tie, tags, "dup names: statement-level outcome " ++ go.cls⟩
+      else if !hgo then ⟨.tie, tags, "statement-level matrix of a tree of the average differs from the rose-tree one"⟩
       else
       -- oracle: entrywise mean of the specs
       let expect : Option (List String × List (List Rat)) :=
@@ -155,7 +159,9 @@ def handleBase (op : String) (f : List String) : Verdict :=
       let tags := shapeTags t ++ tagIf (bags.length ≥ 2) "nontrivial" ++
         tagIf (t.edges.any (·.len == thr)) "tie-threshold" ++
         tagIf (orderSame && res == "ok") "fid-bagorder-exact" ++ tagIf (!orderSame && res == "ok") "fid-bagorder-differs" ++
-        tagIf (res == "err") "cut-err"
+        tagIf (res == "err") "cut-err" ++
+        tagIf (thr ≤ 0 && t.edges.any (·.len == NIL)) "absent-unspecified" ++
+        tagIf (res == "ok" && cutSpecOK thr t bags && !(cutOK thr t bags)) "doc-ok-raw-differs"
       if !uniq then
         -- outside the quantifier: the statement-level model decides (error iff two tips of
         -- one name meet in a bag); bags compared as a set of sorted bags
@@ -165,7 +171,7 @@ def handleBase (op : String) (f : List String) : Verdict :=
         | .err _, "err" => ⟨.pass, "tie-only-dupnames" :: "dup-rejected" :: tags, ""⟩
         | _, _ => ⟨.tie, tags, "dup names: statement-level outcome " ++ go.cls ++ " vs " ++ res⟩
       else if res != "ok" then ⟨.oracle, tags, "cut failed on a tree with unique tips"⟩
-      else if !(cutOK thr t bags) then ⟨.oracle, tags, "bags are not the components of short branches"⟩
+      else if !(cutSpecOK thr t bags) then ⟨.oracle, tags, "bags are not the components of branches documented as shorter than the threshold"⟩
       else if canonBags (cut thr t) != canonBags bags then ⟨.tie, tags, "model bags " ++ showStrLists (cut thr t)⟩
       else match go with
         | .ok gb => if canonBags gb != canonBags bags then ⟨.tie, tags, "statement-level bags " ++ showStrLists gb⟩ else ⟨.pass, tags, ""⟩
@@ -186,7 +192,9 @@ def handleBase (op : String) (f : List String) : Verdict :=
       let oracleOK : Bool :=
         match Cli.metricOfFlag mflag, parseMetric (if mflag == "boot" then "boots" else mflag) with
         | some _, some (m, _) =>
-          if !uniq || avg || exit != 0 || !allGood then true else
+          if !uniq || avg || !allGood then true
+          else if exit != 0 then false   -- readable trees, a valid metric, unique names: the command must succeed
+          else
           (match parseBlocks (trees.length + 2) (lines text) with
            | some blocks => blocks.length == trees.length &&
                (List.zipWith (fun (b : List String × List (List Rat)) t => matrixOK m t b.1 b.2) blocks trees).all id
@@ -215,7 +223,7 @@ def handleBase (op : String) (f : List String) : Verdict :=
             | _, _ => false
         | _, _ => true
       if exit == 2 then ⟨.oracle, tags, "the command panicked"⟩
-      else if !oracleOK then ⟨.oracle, tags, "printed matrix differs from path sums / metric flag accepted"⟩
+      else if !oracleOK then ⟨.oracle, tags, "printed matrix differs from path sums / wrong metric accepted / the command failed on valid input"⟩
       else if !avgOK then ⟨.oracle, tags, "--avg: not the entrywise mean / differing taxa or unreadable tree not rejected"⟩
       else if model.exit != exit.toNat || exit < 0 then ⟨.tie, tags, s!"model exit {model.exit} ({model.msg})"⟩
       else if model.written outmode != text then ⟨.tie, tags, "model text " ++ escape (model.written outmode)⟩
@@ -239,13 +247,15 @@ def handleBase (op : String) (f : List String) : Verdict :=
         match thr with
         | none => exit != 0
         | some thr =>
-          if !uniq || exit != 0 || !allGood then true else
+          if !uniq || !allGood then true
+          else if exit != 0 then false   -- a valid file, a valid threshold, unique names: the command must succeed
+          else
           let recs := (lines text).map fun l => l.splitOn "\t"
           recs.all (fun r => r.length == 3 && (r.getD 1 "").toNat? == some ((r.getD 2 "").splitOn ",").length) &&
           (trees.zipIdx.all fun ti =>
-            cutOK thr ti.1 ((recs.filter fun r => r.headD "" == toString ti.2).map fun r => (r.getD 2 "").splitOn ","))
+            cutSpecOK thr ti.1 ((recs.filter fun r => r.headD "" == toString ti.2).map fun r => (r.getD 2 "").splitOn ","))
       if exit == 2 then ⟨.oracle, tags, "the command panicked"⟩
-      else if !oracleOK then ⟨.oracle, tags, "printed groups are not the components of short branches"⟩
+      else if !oracleOK then ⟨.oracle, tags, "printed groups are not the documented components / the command failed on valid input"⟩
       else if model.exit != exit.toNat || exit < 0 then ⟨.tie, tags, s!"model exit {model.exit} ({model.msg})"⟩
       else if sortStrings (lines (model.written outmode)) != sortStrings (lines text) then ⟨.tie, tags, "model text " ++ escape (model.written outmode)⟩
       else ⟨.pass, tags, ""⟩
